@@ -3,6 +3,7 @@ package inmemory
 import (
 	"context"
 	"fmt"
+	"slices"
 	"sync"
 	"sync/atomic"
 	"time"
@@ -208,21 +209,29 @@ func (r *InMemoryRepository) Find(
 	r.mu.Lock()
 	defer r.mu.Unlock()
 
-	out := make([]def.Task, 0)
+	matched := make([]*def.Task, 0)
 	for pair := r.orderedMap.Oldest(); pair != nil; pair = pair.Next() {
 		if matcher.Match(*pair.Value.Task) {
-			if offset != 0 {
-				offset--
-				continue
-			}
-			if limit == 0 {
-				break
-			}
-			if limit > 0 {
-				limit--
-			}
-			out = append(out, pair.Value.Task.Clone())
+			matched = append(matched, pair.Value.Task)
 		}
+	}
+	// oldest-created first, as the sql backed repository lists them;
+	// insertion order only coincides with it while the clock never steps back.
+	slices.SortStableFunc(matched, func(a, b *def.Task) int { return a.CreatedAt.Compare(b.CreatedAt) })
+
+	out := make([]def.Task, 0)
+	for _, task := range matched {
+		if offset != 0 {
+			offset--
+			continue
+		}
+		if limit == 0 {
+			break
+		}
+		if limit > 0 {
+			limit--
+		}
+		out = append(out, task.Clone())
 	}
 	return out, nil
 }
